@@ -146,6 +146,10 @@ def netOp (n : NSt) (w : List String) : NSt × String :=
      | some so => (n, if so.inbox.isEmpty then "pending" else "ready ok")
      | none => (n, "bad-op no-sock"))
   | ["pause", _] => (n, "ok")
+  -- descriptor exhaustion is an environment condition: accept() fails while it lasts (each failure is an
+  -- AcceptFailed of its own — their number is not predicted), the queued connection is accepted afterwards
+  | ["fdhoard"] => (n, "ok")
+  | ["fdrelease", _] => (n, "ok")
   | ["rawabort", _, _] =>
     -- connections reset before / while the accept loop takes them: each fails only itself (whether it is
     -- reported as AcceptFailed depends on the race, so cases with this op do not read the event count)
